@@ -18,8 +18,9 @@ def binOps : List (String × BinOp) := [
 
 def triggers (E : Env) (vs : List Value) : String :=
   " ".intercalate (
-    -- K1: two strings among the operands are compared as temporal values, differently from their text order
-    (if !Spec.textCoherent E (vs.flatMap Spec.stringsOf) then ["C23-temporal-string-compare"] else []) ++
+    -- K1: two different spellings of one temporal value (ordered equal, not `=`), or a non-transitive mix of
+    -- temporal and text comparisons; same-kind temporal strings with different keys are NOT a trigger
+    (if !(Spec.strEqOK E (vs.flatMap Spec.stringsOf) && Spec.strTransOn E (vs.flatMap Spec.stringsOf)) then ["C23-temporal-string-compare"] else []) ++
     -- K2: a list operand contains a map / graph id / blob …: inside lists `<` uses the ORDER BY comparator
     (if !vs.all Spec.inScope then ["C23-list-nonplain-order"] else []))
 
@@ -33,14 +34,21 @@ def boolObs (b : Bool) : String := if b then "bool 1" else "bool 0"
 def cmpOpOf : BinOp → Option CmpOp
   | .lt => some .lt | .le => some .le | .gt => some .gt | .ge => some .ge | _ => none
 
-def specBin (op : BinOp) (a b : Value) : String :=
+def specBin (E : Env) (op : BinOp) (a b : Value) : String :=
   match op with
   | .and => obsValue (Spec.triValue (Spec.and3 (Spec.tri a) (Spec.tri b)))
   | .or => obsValue (Spec.triValue (Spec.or3 (Spec.tri a) (Spec.tri b)))
   | .xor => obsValue (Spec.triValue (Spec.xor3 (Spec.tri a) (Spec.tri b)))
   | .isNull => boolObs a.isNull
   | .isNotNull => boolObs (!a.isNull)
-  | .inList => if b.isNull then "null -" else "-"
+  | .inList => match b with
+    | .null => "null -"
+    -- `x IN list`: the Kleene OR of the element equalities
+    | .list items => obsValue (Spec.triValue (items.foldr (fun it acc => Spec.or3 (Spec.eq3 a it) acc) (some false)))
+    | _ => "-"
+  -- `=` / `<>` on ALL values: the Spec's `eq3` (lists and maps: Kleene AND of the element equalities)
+  | .eq => obsValue (Spec.triValue (Spec.eq3 a b))
+  | .ne => obsValue (Spec.triValue (Spec.not3 (Spec.eq3 a b)))
   | op =>
     if a.isNull || b.isNull then "null -" else
     match op, a, b with
@@ -63,7 +71,7 @@ def specBin (op : BinOp) (a b : Value) : String :=
         | .eq, .str x, .str y => boolObs (x == y)
         | .ne, .str x, .str y => boolObs (x != y)
         | op, .str x, .str y => match cmpOpOf op with
-          | some c => boolObs (c.test (Spec.textCmp x y))
+          | some c => boolObs (c.test (Spec.strOrder E x y))
           | none => "-"
         | _, _, _ => "-"
 
@@ -114,7 +122,7 @@ def step (_ : Unit) (ws : List String) : Unit × String × String × String :=
     | "bin", [op, a, b] =>
       match binOps.lookup op, parseValue a, parseValue b with
       | some o, some a, some b =>
-        ((), obsValue (evalBin E o a b), specBin o a b, triggers E [a, b])
+        ((), obsValue (evalBin E o a b), specBin E o a b, triggers E [a, b])
       | _, _, _ => ((), "bad-op", "-", "")
     | "un", [op, a] =>
       match parseValue a with
